@@ -10,7 +10,7 @@ from harness import fw
 META = {
     "id": "C17",
     "technique": "Coq proof (host LCD model vs firmware LCD model over the mock's DDRAM: refinement by induction on the text, progress-bar arithmetic, backlight/glyph invariants over all histories) + extracted-model correspondence with the real LCD class and with the real transpiled firmware run under the mock core + property oracle firmware-vs-host",
-    "level_text": "Theorems C17_* (coq/Props/C17.v) are proved for all ASCII texts, alignments, clear flags, in-range rows/columns, all histories of guarded calls and all geometries that fit one HD44780 about Gallina models of Displays/LCD.py and of the emitted LCD C++ (helper templates + per-node code, texts as UTF-8 bytes) on the mock LiquidCrystal DDRAM: per-call and per-history refinement (cells, backlight level, glyph table), never-off-row for every call kind on both sides, the four progress-bar laws, the backlight pin invariant over every firmware history, glyph rows; five refutations with witnesses (one-row message, progress width <= 0 / max <= 0, geometries that alias rows, non-ASCII text) replayed on the real code; the style/alignment tables of host, parser and emitter are regenerated from the source (Gen/LcdTables.v) and proved to agree. Both models are run against the real LCD object and the real parse+emit output compiled with g++ on generated op sequences (geometry sweep 1..40 x 1..4, both wirings), and the property relation is evaluated directly firmware-vs-host.",
+    "level_text": "Theorems C17_* (coq/Props/C17.v) are proved for all ASCII texts, alignments, clear flags, in-range rows/columns, all histories of guarded calls and all geometries that fit one HD44780 about Gallina models of Displays/LCD.py and of the emitted LCD C++ (helper templates + per-node code, texts as UTF-8 bytes) on the mock LiquidCrystal DDRAM: per-call and per-history refinement (cells, backlight level, glyph table; message with any top/bottom on any display, progress with any value/max_value/width), never-off-row for every call kind on both sides, the four progress-bar laws for every max_value and width argument, the backlight pin invariant over every firmware history, glyph rows; two refutations with witnesses (geometries that alias rows, non-ASCII text) replayed on the real code; three repaired defects (one-row message, progress width <= 0 / max_value <= 0: kind=fixed, their former refutations are now the positive theorems C17_message_one_row, C17_progress_same_bar, C17_progress_bar_within_one, their witnesses are replayed on every run and reported as VIOLATION if they fail again); the style/alignment tables of host, parser and emitter are regenerated from the source (Gen/LcdTables.v) and proved to agree. Both models are run against the real LCD object and the real parse+emit output compiled with g++ on generated op sequences (geometry sweep 1..40 x 1..4, both wirings), and the property relation is evaluated directly firmware-vs-host.",
     "level_note": "Trusted: Coq kernel, extraction, OCaml driver, mock Arduino core + mock LiquidCrystal/LiquidCrystal_I2C as the definition of 'device', g++, CPython. The theorems are about the models; the correspondence bounds their distance from LCD.py / emitter.py / parser.py. Text inside the guard is ASCII; binary64 noise at exact .5 ties of the progress ratio is outside the model.",
     "design_ref": "DESIGN.md section 4 C17",
 }
@@ -83,7 +83,7 @@ def op_rows(op, rows):
         s = set()
         if op[1] is not None:
             s.add(0)
-        if op[2] is not None:
+        if op[2] is not None and rows >= 2:      # one-row display: both sides skip bottom
             s.add(1)
         return s
     if k == "clear":
@@ -123,9 +123,9 @@ def py_guard(g, op):
     if k == "line":
         return rin(op[1]) and is_ascii(op[2]) and acode(op[3]) < 3
     if k == "message":
-        return is_ascii(op[1]) and is_ascii(op[2]) and acode(op[3]) < 3 and acode(op[4]) < 3 and (op[2] is None or rows >= 2)
+        return is_ascii(op[1]) and is_ascii(op[2]) and acode(op[3]) < 3 and acode(op[4]) < 3
     if k == "progress":
-        return rin(op[1]) and scode(op[5]) < 4 and is_ascii(op[6]) and op[3] > 0 and (op[4] is None or op[4] >= 1)
+        return rin(op[1]) and scode(op[5]) < 4 and is_ascii(op[6])
     if k == "brightness":
         return (not i2c) and bl is not None and 0 <= op[1] <= 255
     if k == "glyph":
@@ -408,9 +408,8 @@ def sweep_ops(rng, g, thorough):
         for a, c in combos:
             ops.append(["line", r % rows, gen_text(rng, n), a.upper() if rng.random() < 0.1 else a, c])
             r += 1
+    # bottom texts also on one-row displays (both sides skip them; formerly F-C17-message-one-row)
     for top_n, bot_n in [(0, None), (None, cols), (cols + 2, cols - 1 if cols > 1 else 1), (1, 0), (None, None)]:
-        if bot_n is not None and rows < 2:
-            bot_n = None
         ops.append(["message", None if top_n is None else gen_text(rng, top_n), None if bot_n is None else gen_text(rng, bot_n),
                     rng.choice(ALIGNS), rng.choice(ALIGNS), rng.random() < 0.6])
     ops.append(["clear"])
@@ -419,12 +418,26 @@ def sweep_ops(rng, g, thorough):
     return ops
 
 
+def bar_width(cols, w):
+    """total bar width both sides use: width=None -> cols, otherwise clamped into 1..cols"""
+    return cols if w is None else max(1, min(cols, w))
+
+
+def divides(m, x):
+    """Coq's (m | x): 0 divides only 0"""
+    return x == 0 if m == 0 else x % m == 0
+
+
 def exact_progress(rng, cols, rows):
-    """a progress call whose value*width is a multiple of max_value (or saturated)"""
-    w = rng.choice([None, 1, cols, max(1, cols // 2), rng.randint(1, cols), cols + 3])
-    tw = cols if w is None else min(cols, w)
+    """a progress call whose value*width is a multiple of max_value (or saturated, or with a
+    degenerate max_value <= 0 = empty bar); width also <= 0 (one cell) and > cols"""
+    w = rng.choice([None, 1, cols, max(1, cols // 2), rng.randint(1, cols), cols + 3, 0, -1, -cols - 2])
+    tw = bar_width(cols, w)
     kind = rng.random()
-    if kind < 0.2:
+    if kind < 0.15:
+        m = rng.choice([0, -1, -2, -7, -100])
+        v = rng.choice([-5, -1, 0, 1, 5, 100, 300])
+    elif kind < 0.35:
         m = rng.randint(1, 300)
         v = rng.choice([-5, -1, 0, m, m + 1, m + 100])
     else:
@@ -448,7 +461,7 @@ def random_op(rng, g, guard=True):
         return ["line", row, gen_text(rng, n), rng.choice(ALIGNS), rng.random() < 0.5]
     if k < 0.62:
         top = rng.choice([None, gen_text(rng, rng.choice([0, 1, cols, cols + 3]))])
-        bot = rng.choice([None, gen_text(rng, rng.choice([0, 1, cols, cols + 3]))]) if rows >= 2 else None
+        bot = rng.choice([None, gen_text(rng, rng.choice([0, 1, cols, cols + 3]))])
         return ["message", top, bot, rng.choice(ALIGNS), rng.choice(ALIGNS), rng.random() < 0.5]
     if k < 0.67:
         return ["clear"]
@@ -695,7 +708,7 @@ def oracle(ctx, cid, g, ops, hi, fwp):
                     ctx.fail(f"host {op[0]} changed another row", c, show([prev_host[r]]), show([host[r]]), key="other-row-host")
                     return
         if op[0] == "progress":
-            tw = cols if op[4] is None else min(cols, op[4])
+            tw = bar_width(cols, op[4])
             lab = op[6] or ""
             hf = bar_filled(host[op[1]], lab, tw, 255 if scode(op[5]) == 0 else DEV_GLYPH[STYLES[scode(op[5])]])
             df = bar_filled(dev[op[1]], lab, tw, DEV_GLYPH[STYLES[scode(op[5])]])
@@ -704,13 +717,13 @@ def oracle(ctx, cid, g, ops, hi, fwp):
                 if hf < 0 or df < 0:
                     ctx.fail("progress bar is not 'filled then blank'", c, None, show([host[op[1]], dev[op[1]]]), key="bar-shape")
                     return
-                if v <= 0 and (hf, df) != (0, 0) or v >= m and (hf, df) != (tw, tw):
-                    ctx.fail("progress bar does not saturate", c, [0 if v <= 0 else tw] * 2, [hf, df], key="saturate")
+                if (v <= 0 or m <= 0) and (hf, df) != (0, 0) or 0 < m <= v and (hf, df) != (tw, tw):
+                    ctx.fail("progress bar does not saturate", c, [0 if (v <= 0 or m <= 0) else tw] * 2, [hf, df], key="saturate")
                     return
                 if abs(hf - df) > 1:
                     ctx.fail("progress bars differ by more than one cell", c, hf, df, key="within-one")
                     return
-                if (v * tw) % m == 0 and hf != df:
+                if divides(m, v * tw) and hf != df:
                     ctx.fail("progress bars differ although value*width is a multiple of max_value", c, hf, df, key="exact")
                     return
                 if hf != df:
@@ -756,7 +769,7 @@ def progress_scan(ctx, cid, g, ops, hi, fwp):
     for j, op in enumerate(ops):
         if op[0] != "progress":
             continue
-        tw = g[0] if op[4] is None else min(g[0], op[4])
+        tw = bar_width(g[0], op[4])
         code = DEV_GLYPH[STYLES[scode(op[5])]]
         hs.append(bar_filled(canon_host(hi["steps"][j]["buf"])[op[1]], op[6] or "", tw, code))
         ds.append(bar_filled(mats[j][op[1]], op[6] or "", tw, code))
@@ -773,6 +786,9 @@ def run(ctx: C.Ctx):
     rng = ctx.rng
     thorough = ctx.tier == "thorough"
     dist = Counter()
+    # ---- known findings: replay every listed witness on the real host + real firmware.  First, so
+    #      that the witness of a repaired defect that has returned is the first replay reported.
+    replay_findings(ctx)
     cases = []       # dict(id, geom, ops, rts, mode, kind)  kind: sweep | seq | scan | wild
 
     def add(kind, g, ops, mode, rt_p):
@@ -805,12 +821,12 @@ def run(ctx: C.Ctx):
         r = rng.randint(1, 2) if c > 20 else rng.randint(1, 4)
         i2c = rng.random() < 0.5
         g = (c, r, i2c, None)
-        m = rng.choice([1, 2, 3, 7, 10, 100, rng.randint(1, 60)])
-        w = rng.choice([None, rng.randint(1, c), c])
+        m = rng.choice([1, 2, 3, 7, 10, 100, rng.randint(1, 60), 0, -1, -10])
+        w = rng.choice([None, rng.randint(1, c), c, 0, -3, c + 2])
         style = rng.choice(STYLES)
-        tw = c if w is None else w
+        tw = bar_width(c, w)
         label = rng.choice([None, "", "ab"[:max(0, min(2, c - tw - 1))] or None])
-        vals = sorted(set(list(range(-2, min(m, 24) + 3)) + [m - 1, m, m + 1, m + 2, m // 2]))
+        vals = sorted(set(list(range(-2, min(max(m, 3), 24) + 3)) + [m - 1, m, m + 1, m + 2, m // 2]))
         row = rng.randrange(r)
         add("scan", g, [["progress", row, v, m, w, style, label] for v in vals], "setup", 0.3)
     # ---- backlight histories on the three wirings (parallel + pin, I2C backpack, parallel without pin)
@@ -898,6 +914,7 @@ def run(ctx: C.Ctx):
     n_oracle = n_corr_h = n_corr_d = 0
     nontrivial = set()
     untranspiled = []
+    unrun = []
     for ci, c in enumerate(cases):
         bi, li = where[ci]
         parsed, prob = fres[bi]
@@ -918,6 +935,8 @@ def run(ctx: C.Ctx):
                          {"id": c["id"], "geom": g, "ops": ops}, None, builders[bi].source()[0][-1500:])
             if prob.startswith("transpile failed") and c["kind"] != "wild" and all(c["guard"]):
                 untranspiled.append(c)
+            elif c["kind"] != "wild" and all(c["guard"]):
+                unrun.append(c)
             continue
         fwp = parsed[li]
         dev_ops = c.get("dev_ops", ops)
@@ -931,6 +950,13 @@ def run(ctx: C.Ctx):
             n_oracle += len(ops)
             for op in ops:
                 nontrivial.add(json.dumps([g, op]))
+                # the regions the three repaired findings used to exclude
+                if op[0] == "message" and op[2] is not None and g[1] == 1:
+                    dist["oracle:message-bottom-on-one-row"] += 1
+                if op[0] == "progress" and op[4] is not None and op[4] <= 0:
+                    dist["oracle:progress-width<=0"] += 1
+                if op[0] == "progress" and op[3] <= 0:
+                    dist["oracle:progress-max<=0"] += 1
 
     # ---- a batch of guarded calls that did not transpile: find the call (each one alone in a script);
     #      an in-range call the host accepts and the transpiler rejects leaves nothing on the display
@@ -948,6 +974,29 @@ def run(ctx: C.Ctx):
                 seen.add(key)
                 ctx.fail("the transpiler rejects an in-range LCD call the host accepts", {"geom": g, "ops": [op]},
                          "firmware for the call", f"{t.get('exc')}: {t.get('msg')}", key=key)
+
+    # ---- a batch of guarded calls whose sketch did not compile or died (e.g. a division by zero in a
+    #      helper): find the call, each one alone on a fresh display
+    if unrun:
+        probe, seen_op = [], set()
+        for c in unrun[:60]:
+            for op in c["ops"]:
+                k = json.dumps([c["geom"][:3], op])
+                if k not in seen_op and len(probe) < 300:
+                    seen_op.add(k)
+                    probe.append((c["geom"], op))
+        bs = []
+        for g, op in probe:
+            b = ScriptBuilder("setup")
+            b.add_lcd("probe", g, [op], [False])
+            bs.append(b)
+        seen = set()
+        for (g, op), (_, prob) in zip(probe, run_firmware(bs)):
+            key = "firmware-dies-" + op[0]
+            if prob and not prob.startswith("transpile failed") and key not in seen:
+                seen.add(key)
+                ctx.fail("the firmware for an in-range LCD call does not compile or dies at run time", {"geom": g, "ops": [op]},
+                         "a firmware trace for the call", prob[:400], key=key)
 
     # ---- calls the transpiler must reject (bad align/style, glyph with != 8 rows)
     if reject_cases:
@@ -969,31 +1018,28 @@ def run(ctx: C.Ctx):
     if ctx.exe:
         pc = []
         for _ in range(4000 if thorough else 600):
-            m = rng.choice([1, 2, 3, 4, 6, 7, 10, 16, 40, 100, 255, rng.randint(1, 400)])
+            m = rng.choice([1, 2, 3, 4, 6, 7, 10, 16, 40, 100, 255, rng.randint(1, 400), 0, -1, -rng.randint(2, 400)])
             w = rng.randint(1, 40)
-            v = rng.choice([-1, 0, 1, m // 2, m - 1, m, m + 1, rng.randint(0, m)])
+            v = rng.choice([-1, 0, 1, m // 2, m - 1, m, m + 1, rng.randint(0, max(m, 5))])
             if not progress_float_tie_noise(v, m, w, 40):
                 pc.append((v, m, w))
         pr = ctx.model([[2, v, m, w] for v, m, w in pc])
         for (v, m, w), r in zip(pc, pr):
-            hf = int(round(max(0.0, min(1.0, float(v) / float(m))) * w))
-            vv = min(max(v, 0), m)
-            if r[1] != hf or r[2] != vv * w // m:
-                ctx.disagree("hfilled/dfilled vs round()/integer division", [v, m, w], r, [hf, vv * w // m])
-
-    # ---- known findings: replay every listed witness on the real host + real firmware
-    replay_findings(ctx)
+            hf = int(round((0 if m <= 0 else max(0.0, min(1.0, float(v) / float(m)))) * w))
+            df = 0 if m <= 0 else min(max(v, 0), m) * w // m
+            if r[1] != hf or r[2] != df:
+                ctx.disagree("hfilled/dfilled vs round()/integer division", [v, m, w], r, [hf, df])
 
     n_ops = sum(len(c["ops"]) for c in cases)
     ctx.coverage.update({
         "evaluations": n_ops,
         "distinct_nontrivial": len(nontrivial),
-        "rule": "sweep: for every geometry that fits one HD44780 (cols 1..40 x rows 1..4 with rows<=2 or cols<=20; all of them in the thorough tier, a boundary sample in quick) and both wirings, single write/line/message/clear calls at columns 0, cols//2, cols-1 with text length classes empty/shorter/equal/longer, all alignments and clear flags, executed back to back on one display; seq: seeded random sequences of <= 8 guarded ops, one op per loop() pass so the mock dumps the matrix after every op; scan: progress with value = -2..max+2 at fixed max/width; bl: histories of 36 (quick) / 60 (thorough) display/backlight/brightness calls (plus glyph and line calls) on the three wirings (parallel with backlight pin, I2C backpack, parallel without pin); wild: out-of-range arguments and oversized geometries (correspondence only). ~30% of the calls pass row/col/value/max/width/level/slot/flags as run-time values (analog_read). distinct non-trivial = distinct (geometry, wiring, call) pairs evaluated by the firmware-vs-host oracle.",
+        "rule": "sweep: for every geometry that fits one HD44780 (cols 1..40 x rows 1..4 with rows<=2 or cols<=20; all of them in the thorough tier, a boundary sample in quick) and both wirings, single write/line/message/clear calls at columns 0, cols//2, cols-1 with text length classes empty/shorter/equal/longer, all alignments and clear flags, executed back to back on one display; seq: seeded random sequences of <= 8 guarded ops (message bottoms also on one-row displays, progress also with width <= 0 / > cols and max_value <= 0), one op per loop() pass so the mock dumps the matrix after every op; scan: progress with value = -2..max+2 at fixed max/width (max also 0, -1, -10; width also 0, -3, cols+2); bl: histories of 36 (quick) / 60 (thorough) display/backlight/brightness calls (plus glyph and line calls) on the three wirings (parallel with backlight pin, I2C backpack, parallel without pin); wild: out-of-range arguments and oversized geometries (correspondence only). ~30% of the calls pass row/col/value/max/width/level/slot/flags as run-time values (analog_read). distinct non-trivial = distinct (geometry, wiring, call) pairs evaluated by the firmware-vs-host oracle.",
         "samples": [{"geom": c["geom"], "ops": c["ops"][:2]} for c in (cases[0], cases[len(cases) // 2], cases[-1])],
         "distribution": dict(dist, sketches=len(builders), cases=len(cases), host_model_calls=n_corr_h, device_model_calls=n_corr_d,
                              oracle_calls=n_oracle, run_time_arg_calls=sum(sum(c["rts"]) for c in cases)),
         "exhaustive": False,
-        "guard": "geometry fits one HD44780 (rows <= 2 or cols <= 20); row/col in range; ASCII text (F-C17-non-ascii); message(bottom) only with rows >= 2; progress max_value > 0 and width None or >= 1; brightness 0..255 on a parallel LCD with backlight pin; glyph slot 0..7 with 8 rows (outside: F-C17-* findings / calls the property does not quantify over)",
+        "guard": "geometry fits one HD44780 (rows <= 2 or cols <= 20); row/col in range; ASCII text (F-C17-non-ascii); message with any top/bottom on any display and progress with any max_value (also <= 0) and any width (also <= 0, > cols) are inside the guard since the repair of F-C17-message-one-row / F-C17-progress-width / F-C17-progress-max; brightness 0..255 on a parallel LCD with backlight pin; glyph slot 0..7 with 8 rows (outside: F-C17-* findings / calls the property does not quantify over)",
         "unmodelled": ["which glyph the HD44780 character ROM shows for a byte >= 128 (cells are compared as byte values; U+2588 / 0xFF identified)",
                        "binary64 rounding of ratio*width at exact .5 ties of the progress bar (the model rounds the exact rational; such calls are excluded from the host correspondence, not from the oracle)",
                        "float/str()-converted arguments (text given as numbers, float rows/values)", "C int overflow (16-bit AVR)",
@@ -1007,9 +1053,10 @@ def run(ctx: C.Ctx):
 
 
 def replay_findings(ctx):
+    """kind=finding: still failing -> KNOWN-FINDING line, silent otherwise.  kind=fixed (repaired in
+    Reduino): suppresses nothing - the witness lies inside the guard, is replayed all the same and a
+    failure is a VIOLATION whose replay is the witness."""
     for f in ctx.findings:
-        if f.get("kind") == "fixed":
-            continue
         w = f["witness"]
         g = list(w["geom"])
         ops = w["ops"]
@@ -1017,12 +1064,22 @@ def replay_findings(ctx):
         b = ScriptBuilder("setup")
         b.add_lcd("known", g, ops, [False] * len(ops))
         parsed, prob = run_firmware([b])[0]
+        fixed = f.get("kind") == "fixed"
         if prob:
+            if fixed:
+                ctx.fail(f"{f['id']} (recorded as fixed): no firmware for the witness - {prob}", {"geom": g, "ops": ops},
+                         w.get("expected"), None, key="fixed:" + f["id"])
             continue
         probe = C.Ctx("C17", ctx.tier, ctx.seed)
         probe.findings = []
         oracle(probe, "known", g, ops, hi, parsed[0])
-        if probe.failures:
+        if not probe.failures:
+            continue
+        if fixed:
+            p0 = probe.failures[0]
+            ctx.fail(f"{f['id']} (recorded as fixed in {f.get('commit')}) fails again: {p0['what']}", {"geom": g, "ops": ops},
+                     p0["expected"], p0["observed"], key="fixed:" + f["id"])
+        else:
             ctx.known(f"{f['id']}: {f['what']}")
 
 
